@@ -117,7 +117,7 @@ theorem enterInner_spec (t : Ty) (p : Params) (b : Bytes) (tal : Tal) (h : tal.o
     · simp only [h2, if_false]
       split
       · refine ⟨by simp, ?_⟩
-        intro b' p' t' ht; cases ht; exact ⟨by omega, hoff'.1⟩
+        intro b' p' t' ht; cases ht; exact ⟨by rw [List.length_take]; omega, hoff'.1⟩
       · simp
 
 /-- `enter` never panics and hands back a header that lies inside the octets it returns -/
@@ -138,10 +138,10 @@ theorem enter_spec (t : Ty) (p : Params) (b : Bytes) :
       · simp only [h2, if_false, Bool.false_eq_true]
         by_cases h3 : needsUnwrap t p = true
         · simp only [h3, if_true]
-          exact enterInner_spec t p b tal (by omega)
+          exact enterInner_spec t p (b.take (tal.off + tal.len)) tal (by rw [List.length_take]; omega)
         · simp only [h3, if_false, Bool.false_eq_true]
           refine ⟨by simp, ?_⟩
-          intro b' p' t' ht; cases ht; exact ⟨by omega, hoff.1⟩
+          intro b' p' t' ht; cases ht; exact ⟨by rw [List.length_take]; omega, hoff.1⟩
 
 theorem from_enter_ne_panic {t : Ty} {p p' : Params} {b b' : Bytes} {tal : Tal}
     (h : enter t p b = .ok (b', p', tal)) : from_ b' tal.off ≠ .panic := by
